@@ -12,10 +12,13 @@ LEVEL_TEXT = ("TLC checks the explicit-time model Runner (send phase, done, dela
               "closes must fail NoEarlyCancel. The real startScanEngine drives the real packet engine (sender, receiver, merger, result channel, "
               "JSON logger) with send phases shorter and longer than the delay and replies delivered at 0.1/0.5/1.6 of the delay after the last "
               "probe; TLC validates the measured times against the same clauses (lower bound exact, upper bound 3 s) and the same runs "
-              "against the pipeline specification.")
+              "against the pipeline specification. The chunk loop around it (ScanRun: one socket, filter and exit delay per pass of at most 200 port "
+              "ranges; explicit time; the regressions delayOnlyLast and timerAtStart must fail) is model checked, and every packet run of the real "
+              "binary on the virtual wire - hand-written scenarios and the stimuli ScanRunGen enumerates - is validated against it as an event "
+              "sequence (ScanRunTrace).")
 NOTE = ("Trusted: TLC; monotonic clock; LastProbe is logged before the sender can signal completion and CtxCancelled after the cancellation, so the "
         "lower bound cannot produce a false alarm; 'reported' is demanded for replies delivered in the first half of delays >= 600 ms. The per-chunk "
-        "behaviour of chunked port scans (startPortScanEngine on a real socket) is covered by the end-to-end tier when it is available.")
+        "behaviour of chunked port scans (startPortScanEngine on a real socket) is covered by the socket-level tier (needs unshare -n).")
 TECHNIQUE = "TLA+ model checking (TLC, explicit time) + validation of measured traces of the real runner against the spec"
 DESIGN_REF = "DESIGN.md section 5, C16"
 
